@@ -7,7 +7,7 @@
    digests the byte-wise order of the text is the numeric order, so cmp_dig on the one-element list is
    the comparison the code makes.  The md5 function is supplied as the table of the (parent, body)
    pairs that occur in the scenario, computed by the harness with db.CreateRevIDWithBytes. *)
-From SG Require Export Base.Prelude Base.Bytes C06.Replication C06.VV.
+From SG Require Export Base.Prelude Base.Bytes C06.Replication C06.VV C06.VVF C06.VVG.
 From SG Require Import C10.HLV.
 Open Scope N_scope.
 
@@ -50,8 +50,8 @@ Fixpoint vrun_count (s : vsys) (ops : list vop) : vsys * N * N :=
   match ops with
   | [] => (s, 0, 0)
   | o :: r =>
-      let st := vstatus_of s o in
-      let '(s', a, c) := vrun_count (vstep s o) r in
+      let st := fstatus_of s o in
+      let '(s', a, c) := vrun_count (fstep s o) r in
       (s', (if vstored st then a + 1 else a), (if vstatus_eqb st VConflict then c + 1 else c))
   end.
 
@@ -68,10 +68,54 @@ Fixpoint vcheck_steps (s : vsys) (steps : list vstepc) : bool :=
       cnt_ok && vobs_ok s' after && vcheck_steps s' r
   end.
 
+(* ---- version-vector scenarios with custom resolvers and more than two peers: the model of VVG.v ---- *)
+(* what the harness writes down: a pull of peer [me] from peer [from] with the resolver r, a push of [me] to [to] *)
+Definition hpull (me from : N) (r : rspec) (d phys : N) : gop := GXfer from me (Some (rs_fun r)) d phys.
+Definition hpush (me to : N) (d : N) : gop := GXfer me to None d 0.
+
+(* what the admin side of peer p shows of document d *)
+Inductive gstepc := GSt (ops : list gop) (counts : option (N * N)) (after : list (N * N * vpobs)).
+
+Definition gstored (st : gstatus) : bool :=
+  match st with GApplied | GRemoteWins | GLocalWins | GMerged => true | _ => false end.
+
+Fixpoint grun_count (s : gsys) (ops : list gop) : gsys * N * N :=
+  match ops with
+  | [] => (s, 0, 0)
+  | o :: r =>
+      let st := gstatus_of s o in
+      let '(s', a, c) := grun_count (gstep s o) r in
+      (s', (if gstored st then a + 1 else a), (if gstatus_eqb st GConflict then c + 1 else c))
+  end.
+
+Definition gobs_ok (s : gsys) (l : list (N * N * vpobs)) : bool :=
+  forallb (fun e => let '(p, d, o) := e in vpobs_eqb (vpobs_of (gdoc s p d)) o) l.
+
+Fixpoint gcheck_steps (s : gsys) (steps : list gstepc) : bool :=
+  match steps with
+  | [] => true
+  | GSt ops counts after :: r =>
+      let '(s', a, c) := grun_count s ops in
+      let cnt_ok := match counts with Some (a', c') => (a =? a') && (c =? c') | None => true end in
+      cnt_ok && gobs_ok s' after && gcheck_steps s' r
+  end.
+
+(* the same JavaScript resolvers under the revision-tree protocol: functions of the two bodies *)
+Definition rt_fun (r : rspec) : policy :=
+  match r with
+  | RSDefault => default_policy
+  | RSLocal => local_wins_policy
+  | RSRemote => remote_wins_policy
+  | RSMerge b => fun _ _ _ _ _ _ => RMerge b
+  | RSNil => fun _ _ _ _ _ _ => RMerge b_tomb
+  | RSMix => fun _ _ lb _ _ rb => if rb <? lb then RLocal else if lb <? rb then RRemote else RMerge (lb + 10)
+  end.
+
 (* db.DefaultLWWConflictResolutionType on (tombstone flag, current version value) of the local and the remote document *)
 Definition lww_doc (source value : N) (del : bool) : vdoc := mkD (mkH source value [] []) 0 del [].
 
 Inductive case :=
+| CG (steps : list gstepc)
 | CVV (steps : list vstepc)
 | CLww (ldel : bool) (lver : N) (rdel : bool) (rver : N) (local_won : bool)
 | CScen (tbl : digtbl) (steps : list stepc) (final : list (N * tree * tree))
@@ -102,6 +146,7 @@ Fixpoint check_steps (mk : option revid -> body -> list N) (s : sys) (steps : li
 
 Definition check (c : case) : bool :=
   match c with
+  | CG steps => gcheck_steps gsys0 steps
   | CVV steps => vcheck_steps vsys0 steps
   | CLww ldel lver rdel rver w => Bool.eqb (negb (lww_remote_wins (lww_doc 1 lver ldel) (lww_doc 2 rver rdel))) w
   | CScen tbl steps final =>
